@@ -400,6 +400,16 @@ fn gen_real_pair(rng: &mut Rng) -> (Vec<u8>, Vec<u8>) {
 pub fn exec(w: &[&str], obs: &mut Obs) -> Option<String> {
     let case = || w.join(" ");
     match w {
+        ["tref", ty, bd, th] => {
+            // the text reference (Lean `valueOfText`) against the real tape-based text deserializer on the text rendering
+            let (ty, d, text) = (parse_ty(ty)?, c04::parse_bdoc(bd)?, unhex(th)?);
+            let view = text_view(&d)?;
+            let canon = docgen::render_canonical(&docgen::lexemes(&view));
+            let tok = |data: &[u8]| jomini::TextTape::from_slice(data).map(|t| crate::show::text_tape(t.tokens())).unwrap_or_else(|_| "err".into());
+            if tok(&canon) != tok(&text) { return Some("stale-case".to_string()); }
+            obs.count("tref");
+            Some(run_text_slice(&ty, &text))
+        }
         ["pair", ty, bd, th, bh] => {
             let (ty, d, text, bin) = (parse_ty(ty)?, c04::parse_bdoc(bd)?, unhex(th)?, unhex(bh)?);
             if c04::render_bdoc(&d) != bin { return Some("stale-case".to_string()); }
@@ -513,6 +523,21 @@ pub fn gen(g: &mut Gen) {
         let bin = c04::render_bdoc(&d);
         g.emit(format!("pair {} {} {} {}", show_ty(&ty), c04::show_bdoc(&d), hex(&text), hex(&bin)));
         g.count("pair");
+    }
+    // the text reference alone on colour values under every kind of request, untyped ones included (`pair` makes no
+    // claim there: the formats differ by design; the reference must still predict the real text deserializer)
+    let tys = ["st(a:seq(any))", "st(a:any)", "st(a:seq(str))", "st(a:str)", "st(a:ign)", "st(a:st(n:str;c:seq(u32)))", "st(a:seq(seq(any)))",
+        "st(a:map(any))", "st(a:opt(any))", "st(a:u32)", "st(a:en(rgb;hsv))", "st(a:seq(seq(u32)))", "map(any)", "map(seq(any))", "map(opt(seq(opt(any))))", "st(a:seq(u32))"];
+    let nt = g.budget(160, 3000);
+    for i in 0..nt {
+        let (r, gg, b) = (g.rng.below(256) as u32, g.rng.below(256) as u32, g.rng.below(256) as u32);
+        let a = if i % 5 == 0 { Some(g.rng.below(256) as u32) } else { None };
+        let d = BDoc { fields: vec![BField { ghosts: 0, key: BLeaf::Unquoted(b"a".to_vec()), val: BNode::Rgb(r, gg, b, a) }] };
+        let Some(view) = text_view(&d) else { continue };
+        let ty = crate::tyseed::parse_ty(tys[i % tys.len()]).unwrap();
+        let text = docgen::render_layout(&mut g.rng, &LayoutCfg::reader_safe(), &docgen::lexemes(&view));
+        g.emit(format!("tref {} {} {}", show_ty(&ty), c04::show_bdoc(&d), hex(&text)));
+        g.count("tref:colour");
     }
     let m = g.budget(1500, 30_000);
     for _ in 0..m {
